@@ -81,6 +81,10 @@ def base_configs(tier: str) -> List[dict]:
     # nested parameter mappings (depth 3), identical structured nodes
     out.append(cfg([n("VSrc", {"value": 2.0}), n("VNested", NESTED), n("VNested", NESTED), n("VSink")]))
     out.append(cfg([n("VSrc", {"value": 16.0}), n("VNested", {"opts": {"z": {"zz": {"zzz": [1, 2, 3]}}, "a": {}}, "items": []}), n("VTxtSink", {"path": "o.txt"})]))
+    # every YAML-representable kind of scalar as a parameter value (and in a sweep's value list)
+    out.append(cfg([n("VSrc", {"value": 2.0}),
+                    n("VNested", {"opts": {"i": 5, "t": True, "f": False, "nz": -0.0, "inf": float("inf"), "ninf": float("-inf"), "nan": float("nan"), "s": "5.0", "e": "",
+                                           "n": None, "big": 10 ** 20, "m": {}}, "items": [1, 1.0, True, None, "1", [], {}], "label": "käse ✓"}), n("VSink")]))
     # sweeps
     for i, sw in enumerate(SWEEPS):
         tail = [n("slice:VMulDef:FloatDataCollection", {"factor": 3.0}), n("VSum"), n("VProbe", context_key="r2")]
